@@ -41,6 +41,11 @@ def promoted_value(fn, op):
     if "promoted" in op:
         pid = "%s::promoted[%d]" % (fn.id if fn.kind != "promoted" else fn.body.get("of"), op["promoted"])
         pf = fn.prog.fns.get(pid)
+        if op.get("item"):
+            # (the promoted belongs to the item the code came from - a closure or helper inlined here)
+            alt = fn.prog.fns.get("%s::promoted[%d]" % (op["item"], op["promoted"]))
+            if alt is not None and alt.kind == "promoted":
+                pf = alt
         if op.get("text") in fn.prog.fns and fn.prog.fns[op["text"]].kind == "promoted":
             pf = fn.prog.fns[op["text"]]      # (code inlined from a helper or closure keeps its own promoteds)
         if pf is None:
